@@ -112,6 +112,10 @@ static void run(const Script& s) {
             } else if (t[0] == "set" && r) {
                 setter(*r, (int)num(t[1]), unhex(t[2]));
                 show(*r);
+            } else if (t[0] == "noinner" && r) {
+                // the header alone (the 802.11 frame is taken away): it must still serialize to something RadioTap(buffer) accepts
+                r->inner_pdu(0);
+                show(*r);
             } else if (t[0] == "opt" && r) {
                 bytes d = unhex(t[2]);
                 r->add_option(RadioTap::option((RadioTap::PresentFlags)num(t[1]), d.size(), d.data()));
